@@ -477,7 +477,13 @@ class Registry:
 
     def model_for(self, f):
         try:
-            return self.models.get(f)
+            m = self.models.get(f)
+            if m is None:
+                # library models registered with pyvc.models.model(...) (also for the ghost primitives of
+                # pyvc/pymodels, which are python functions in an interpretable file)
+                from . import models as _models
+                m = _models.MODELS.get(f)
+            return m
         except TypeError:
             return None
 
